@@ -531,7 +531,7 @@ func (eng *Engine) runPath(sv *Solver, h *Harness, prefix []int64) (res PathResu
 		globals: map[*ssa.Global]*Value{}, pkgInit: map[*ssa.Package]bool{},
 		maxSteps: eng.maxSteps, covers: map[string]bool{}, fnSteps: map[*ssa.Function]int64{},
 		stubsHit: map[string]int{}, pool: map[*Value][]Value{}, hashes: map[*Value]*hashState{},
-		once: map[*Value]bool{}, oracle: map[string]int{}, oracleArg: map[string]Value{}, unwind: eng.unwind, sizeBound: eng.sizeBound, trace: eng.trace}
+		once: map[*Value]bool{}, oracle: map[string]int{}, oracleArg: map[string]Value{}, oracleArgs: map[string][]Value{}, unwind: eng.unwind, sizeBound: eng.sizeBound, trace: eng.trace}
 	e.emptyStr = &StrV{}
 	e.rtErrT = eng.rtErrT
 	sv.Reset(e.tc)
@@ -614,7 +614,6 @@ func (e *Exec) panicString(v Value) string {
 	}
 	return itf.t.String()
 }
-
 
 // observe records a value whose rendering under the witness model is compared
 // with what the natively compiled harness prints (predicted vs native output).
